@@ -409,7 +409,7 @@ func nextPow2(n int) int {
 func TestC04_Random(t *testing.T) {
 	rec := evid.New("C04", "c04_random", "rapid-generated reader histories (1..300 ops of Next/Peek/Skip/ReadBinary/Release, boundary sizes) over position-dependent streams of 0..100000 bytes with generated source plans (chunk sizes, zero reads, error position/kind, with/after data) and bytes-backed readers; non-trivial = a successful read served by >=2 source reads, a request > 4096 bytes, or a Release with unread data")
 	defer rec.Flush()
-	runRapid(t, rec, "c04_reader_history", evid.Pick(4000, 15000), genReaderCase, checkReaderCase)
+	runRapid(t, rec, "c04_reader_history", evid.Pick(30000, 40000), genReaderCase, checkReaderCase)
 }
 
 // TestC04_Exhaustive enumerates all programs up to a fixed length over a boundary alphabet, times a
@@ -429,7 +429,7 @@ func TestC04_Exhaustive(t *testing.T) {
 	}
 	// Part A: big sizes
 	alphaA := mkAlphabet([]int{0, 1, 3, 4095, 4096, 4097, 8193, 5000})
-	L := evid.Pick(2, 3)
+	L := evid.Pick(3, 4)
 	type behaviour struct {
 		total int
 		plan  faultio.Plan
@@ -500,7 +500,7 @@ func TestC04_Exhaustive(t *testing.T) {
 	rec.Sample(ReaderCase{Total: behA[1].total, Plan: behA[1].plan, Ops: progsA[len(progsA)/2]})
 	// Part B: fault enumeration over short streams
 	alphaB := mkAlphabet([]int{0, 1, 2, 3, 7, 11})
-	progsB := enumPrograms(alphaB, evid.Pick(2, 3))
+	progsB := enumPrograms(alphaB, evid.Pick(3, 4))
 	parallelFor(len(progsB), func(i int, b *evid.Batch) {
 		for errAt := 0; errAt <= 10; errAt++ {
 			for _, chunk := range []int{1, 2, 0} {
